@@ -86,6 +86,8 @@ class NotAndMacro(Macro):
         goal, pt0 = Or(*args), prevs[0]
         conj_atoms = pt0.prop.arg.strip_conj()
         disj_atoms = goal.strip_disj()
+        if len(conj_atoms) != len(disj_atoms):
+            raise VeriTException("not_and", "unexpected goal: %s" % goal)
         for i, j in zip(conj_atoms, disj_atoms):
             if Not(i) != j:
                 raise VeriTException("not_and", "unexpected goal: %s" % goal)
